@@ -163,14 +163,14 @@ fn run_reentrant(c: &[Val]) -> Val {
             ab = ab.filter(Box::new(ReFilter { app: i, k, inner, w: w.clone() }));
         }
         builder = builder.appender(ab.build(
-            format!("a{}", i),
+            aname(i),
             Box::new(ReAppender { idx: i, fails: a[0].b(), w: w.clone() }),
         ));
     }
     let mut root = None;
     for (k, nd) in c[2].l().iter().enumerate() {
         let nd = nd.l();
-        let atts: Vec<String> = nd[1].l().iter().map(|a| format!("a{}", a.n())).collect();
+        let atts: Vec<String> = nd[1].l().iter().map(|a| aname(a.u())).collect();
         if k == 0 {
             root = Some(Root::builder().appenders(atts).build(level_filter(nd[0].n())));
         } else {
@@ -386,7 +386,7 @@ fn run_from_file(c: &[Val]) -> Val {
     let mut y = String::from("appenders:\n");
     for (i, a) in c[2].l().iter().enumerate() {
         let a = a.l();
-        y.push_str(&format!("  a{}:\n    kind: vrec\n    idx: {}\n    mode: {}\n", i, i, a[0].n()));
+        y.push_str(&format!("  {}:\n    kind: vrec\n    idx: {}\n    mode: {}\n", yq(&aname(i)), i, a[0].n()));
         if !a[1].l().is_empty() {
             y.push_str("    filters:\n");
         }
@@ -402,7 +402,7 @@ fn run_from_file(c: &[Val]) -> Val {
         }
     }
     y.push_str(&format!("root:\n  level: {}\n  appenders: [", LEVEL_NAMES[c[0].u()]));
-    y.push_str(&c[3].l().iter().map(|at| format!("a{}", at.n())).collect::<Vec<_>>().join(", "));
+    y.push_str(&c[3].l().iter().map(|at| yq(&aname(at.u()))).collect::<Vec<_>>().join(", "));
     y.push_str("]\n");
     let raw: log4rs::config::RawConfig = match serde_yaml::from_str(&y) {
         Ok(r) => r,
@@ -437,7 +437,13 @@ fn run_from_file(c: &[Val]) -> Val {
     Val::L(ev)
 }
 
+/// a name as a YAML double-quoted scalar
+fn yq(s: &str) -> String {
+    serde_json::to_string(s).unwrap()
+}
+
 fn run(case: &Val) -> Val {
+    next_name_style();
     let c = case.l();
     if c.len() == 5 {
         return run_isolated(&c);
@@ -469,17 +475,17 @@ fn run(case: &Val) -> Val {
             ab = ab.filter(Box::new(SpyFilter { app: i, k, inner, rec: rec.clone() }));
         }
         if kind == 2 {
-            builder = builder.appender(ab.build(format!("a{}", i), Box::new(LogSink { idx: i, rec: rec.clone() })));
+            builder = builder.appender(ab.build(aname(i), Box::new(LogSink { idx: i, rec: rec.clone() })));
             continue;
         }
         builder = builder.appender(ab.build(
-            format!("a{}", i),
+            aname(i),
             Box::new(RecAppender { idx: i, fails, rec: rec.clone() }),
         ));
     }
     let mut root = Root::builder();
     for at in c[3].l() {
-        root = root.appender(format!("a{}", at.n()));
+        root = root.appender(aname(at.u()));
     }
     let config = match builder.build(root.build(node_level)) {
         Ok(c) => c,
